@@ -106,8 +106,11 @@ PoissonDistribution<RealType>::operator()(Generator& rng) -> result_type
         } while (p > 1);
         return static_cast<result_type>(k - 1);
     }
-    // Use Gaussian approximation rounded to nearest integer
-    return result_type(sample_normal_(rng) + real_type(0.5));
+    // Use Gaussian approximation rounded to nearest integer. The normal
+    // distribution has unbounded support, so clamp negative samples to zero
+    // rather than converting them to an unsigned count.
+    real_type const sample = sample_normal_(rng) + real_type(0.5);
+    return sample > 0 ? static_cast<result_type>(sample) : result_type{0};
 }
 //---------------------------------------------------------------------------//
 }  // namespace celeritas
